@@ -26,6 +26,11 @@
       built-in data type incl. the wrapper types EBooleanObject, EIntegerObject, ... ('C09:datatypes'); features flagged
       volatile / unsettable / changeable=False / transient / derived in many combinations ('C09:feature-flags'): exactly
       the transient and derived ones are missing after a round trip.
+  placement_scenarios (this file, stream 'C09:placement'): 2-3 resources referring to each other, placed in directories that
+      are equal / nested / apart / whose NAMES extend one another (model, model2, model2/sub, mode), each written by save(),
+      save(output=<path>), save(output=<URI object the caller keeps>) or additionally to a second file next to its own; small
+      and large documents, fragment / uuid mode, 1-2 roots; once the saves have returned every file is loaded in a fresh
+      ResourceSet, every proxy followed, and compared with the description of the model taken before the saves.
 """
 import json
 import time
@@ -244,6 +249,232 @@ def regression_cases():
     return out
 
 
+# ---------------------------------------------------------------- where and how the documents are written
+PLACE_STEMS = ['model', 'v1', 'data', 'm', 'lib.d', 'x_y']
+PLACE_SUFFIXES = ['2', '0', '_bak', 's', '.old', '-1']
+PLACE_FILES = ['a', 'b', 'a2', 'm', 'model']
+SAVE_WAYS = ['plain', 'output-string', 'output-uri-kept', 'output-uri-kept', 'export-uri-kept', 'export-string']
+
+
+def _placement_metamodel():
+    from pyecore.ecore import (EPackage, EClass, EAttribute, EReference, EString, EInt, EBoolean, EFloat, EIntegerObject)
+    pkg = EPackage('place', nsURI='http://verif/c09/placement', nsPrefix='place')
+    Node = EClass('Node')
+    feats = Node.eStructuralFeatures
+    feats.append(EAttribute('name', EString))
+    feats.append(EAttribute('count', EInt))
+    feats.append(EAttribute('flag', EBoolean))
+    feats.append(EAttribute('ratio', EFloat))
+    feats.append(EAttribute('opt', EIntegerObject))
+    feats.append(EAttribute('marks', EInt, upper=-1))
+    feats.append(EReference('kids', Node, upper=-1, containment=True))
+    feats.append(EReference('link', Node))
+    feats.append(EReference('links', Node, upper=-1))
+    pkg.eClassifiers.append(Node)
+    return pkg, Node
+
+
+def _placement_snapshot(roots):
+    """every object under its (unique) name: attribute values with their Python types, children in order, reference
+    targets by name -- every proxy is followed"""
+    d = {}
+
+    def tv(v):
+        return [type(v).__name__, v]
+
+    def walk(o):
+        d[o.name] = {'count': tv(o.count), 'flag': tv(o.flag), 'ratio': tv(o.ratio), 'opt': tv(o.opt),
+                     'marks': [tv(x) for x in o.marks], 'kids': [k.name for k in o.kids],
+                     'link': None if o.link is None else JS._resolved(o.link).name,
+                     'links': [JS._resolved(x).name for x in o.links]}
+        for k in o.kids:
+            walk(k)
+    for r in roots:
+        walk(r)
+    return {'roots': [r.name for r in roots], 'objs': d}
+
+
+def _placement_dirs(rng):
+    """a few directories (relative, as lists of segments) related in the ways directories are: the same, a child, a
+    sibling, a sibling whose NAME extends / shortens the other's name, a directory further up"""
+    dirs = [[rng.choice(PLACE_STEMS)] if rng.random() < 0.8 else [rng.choice(PLACE_STEMS), rng.choice(PLACE_STEMS)]]
+    for _ in range(rng.choice([1, 2, 2, 3])):
+        d = rng.choice(dirs)
+        op = rng.choice(['suffix', 'suffix', 'child', 'sibling', 'shorten', 'suffix-child', 'up'])
+        if op == 'suffix':
+            n = d[:-1] + [d[-1] + rng.choice(PLACE_SUFFIXES)]
+        elif op == 'child':
+            n = d + [rng.choice(PLACE_STEMS + PLACE_SUFFIXES + ['sub'])]
+        elif op == 'sibling':
+            n = d[:-1] + [rng.choice(PLACE_STEMS)]
+        elif op == 'shorten':
+            n = d[:-1] + [d[-1][:-1] if len(d[-1]) > 1 else d[-1] + 'q']
+        elif op == 'suffix-child':
+            n = d[:-1] + [d[-1] + rng.choice(PLACE_SUFFIXES), rng.choice(PLACE_STEMS + ['sub'])]
+        else:
+            n = d[:-1] if len(d) > 1 else d
+        dirs.append(n)
+    return dirs
+
+
+def placement_scenarios(ctx, out):
+    """2-3 JSON resources referring to each other (and to themselves), placed in directories that are equal, nested,
+    unrelated or whose names extend one another (model / model2 / model2/sub / mode), each written in one of the ways save
+    offers -- save(), save(output=<path>), save(output=<URI object the caller keeps>), the same to a second file next to
+    the resource's own -- with small and large documents, fragment and uuid mode, one or two roots.  As soon as the last
+    save has returned (the kept URI objects still alive) every written file is loaded in a fresh ResourceSet, every
+    proxy is followed, and the model is compared with the description taken before the saves."""
+    import os
+    import tempfile
+    common.use_repo()
+    from pyecore.resources import URI
+    rng = common.rng_for(ctx.seed, 'C09:placement')
+    n = 140 if ctx.tier != 'thorough' else 2500
+    pkg, Node = _placement_metamodel()
+    st = {'cases': 0, 'documents_loaded_and_compared': 0, 'save_ways': {}, 'dir_relations': {}, 'cross_file_links': 0,
+          'large_documents': 0, 'uuid_resources': 0}
+    for it in range(n):
+        dirs = _placement_dirs(rng)
+        k = rng.choice([2, 2, 3])
+        places = []
+        while len(places) < k:
+            pl = [rng.choice(dirs), rng.choice(PLACE_FILES) + '.json']
+            if pl not in places:
+                places.append(pl)
+        uuids = [rng.random() < 0.3 for _ in range(k)]
+        ways = [rng.choice(SAVE_WAYS) for _ in range(k)]
+        large = rng.random() < 0.12
+        order = list(range(k))
+        rng.shuffle(order)
+        first_loaded = rng.randrange(k)
+        # the models
+        roots, objs, where = [[] for _ in range(k)], [], {}
+        for i in range(k):
+            for r in range(rng.choice([1, 1, 2])):
+                root = Node(name=f'r{i}_{r}')
+                roots[i].append(root)
+                level = [root]
+                objs.append(root)
+                where[root.name] = i
+                for depth in range(2):
+                    nxt = []
+                    for parent in level:
+                        cnt = rng.choice([0, 1, 2, 3])
+                        if large and depth == 0 and i == 0 and r == 0:
+                            cnt = rng.choice([150, 400])
+                        for c in range(cnt):
+                            kid = Node(name=f'{parent.name}.{c}' + ('_long_name_' * 3 if large else ''))
+                            parent.kids.append(kid)
+                            nxt.append(kid)
+                            objs.append(kid)
+                            where[kid.name] = i
+                    level = nxt[:6]
+        sets = []
+        for o in objs[:60]:
+            if rng.random() < 0.5:
+                o.count = rng.choice([0, 1, -1, 7, 2 ** 40, -3 * 10 ** 20])
+            if rng.random() < 0.3:
+                o.flag = rng.random() < 0.7
+            if rng.random() < 0.3:
+                o.ratio = rng.choice([0.0, 2.5, -1.25, 1e22, 3.0])
+            if rng.random() < 0.3:
+                o.opt = rng.choice([0, 5, None])
+            if rng.random() < 0.3:
+                o.marks.extend(rng.choice([[0], [7, 7], [1, 2, 7 * 10 ** 20]]))
+            if rng.random() < 0.6:
+                o.link = rng.choice(objs)
+                sets.append([o.name, 'link', o.link.name])
+                st['cross_file_links'] += where[o.name] != where[o.link.name]
+            if rng.random() < 0.4:
+                for t in rng.sample(objs, min(len(objs), rng.choice([1, 2, 3]))):
+                    o.links.append(t)
+                    sets.append([o.name, 'links', t.name])
+                    st['cross_file_links'] += where[o.name] != where[t.name]
+        hist = [[['/'.join(d), f] for d, f in places], ['uuid' if u else 'fragment' for u in uuids], ways,
+                'large' if large else 'small', ['save order'] + order, ['first loaded', first_loaded],
+                sets if len(sets) <= 40 else sets[:40] + [f'... {len(sets)} references']]
+        case = {'scenario': 'placement', 'seed': ctx.seed, 'tier': ctx.tier, 'format': 'json', 'history': hist}
+        sig = {'property': PROP, 'clause': 'placement', 'format': 'json'}
+        st['cases'] += 1
+        st['large_documents'] += large
+        st['uuid_resources'] += sum(uuids)
+        for w in ways:
+            st['save_ways'][w] = st['save_ways'].get(w, 0) + 1
+        for i in range(k):
+            for j in range(k):
+                if i != j:
+                    a, b = '/'.join(places[i][0]), '/'.join(places[j][0])
+                    rel = 'same' if a == b else 'below' if b.startswith(a + '/') else 'above' if a.startswith(b + '/') else \
+                        'name-extends' if b.startswith(a) else 'name-shortens' if a.startswith(b) else 'apart'
+                    st['dir_relations'][rel] = st['dir_relations'].get(rel, 0) + 1
+        kept = []
+        with tempfile.TemporaryDirectory(prefix='verif_place_') as tmp:
+            try:
+                paths, files = [], []
+                for d, f in places:
+                    os.makedirs(os.path.join(tmp, *d), exist_ok=True)
+                    paths.append(os.path.join(tmp, *d, f))
+                rs = JS._rset('json', pkg)
+                ress = []
+                for i in range(k):
+                    res = rs.create_resource(URI(paths[i]), use_uuid=uuids[i])
+                    res.extend(roots[i])
+                    ress.append(res)
+                want = [_placement_snapshot(roots[i]) for i in range(k)]
+                try:
+                    for i in order:
+                        way, res = ways[i], ress[i]
+                        export = os.path.join(os.path.dirname(paths[i]), 'export_' + places[i][1])
+                        if way == 'plain':
+                            res.save()
+                        elif way == 'output-string':
+                            res.save(output=paths[i])
+                        elif way == 'output-uri-kept':
+                            kept.append(URI(paths[i]))
+                            res.save(output=kept[-1])
+                        elif way == 'export-uri-kept':
+                            # the resource's own file (the others refer to it) and a second document next to it
+                            res.save()
+                            kept.append(URI(export))
+                            res.save(output=kept[-1])
+                            files.append((i, export))
+                        else:
+                            res.save()
+                            res.save(output=export)
+                            files.append((i, export))
+                        files.append((i, paths[i]))
+                except Exception as e:      # noqa
+                    out.fail(dict(sig, stage='save'), f'save ({way}) raised {type(e).__name__}: {e} on {hist[:5]}', case)
+                    continue
+                # the saves have returned: every file is a document of its model
+                files.sort(key=lambda x: (x[0] != first_loaded, x[0], x[1]))
+                for i, fpath in files:
+                    label = f'{os.path.relpath(fpath, tmp)} ({ways[i]}, {"uuid" if uuids[i] else "fragment"})'
+                    try:
+                        rs2 = JS._rset('json', pkg)
+                        loaded = rs2.get_resource(URI(fpath))
+                        got = _placement_snapshot(list(loaded.contents))
+                    except Exception as e:      # noqa
+                        size = os.path.getsize(fpath) if os.path.exists(fpath) else None
+                        out.fail(dict(sig, stage='load'), f'{label}, {size} bytes on disk once save had returned: loading / '
+                                 f'following the references raised {type(e).__name__}: {str(e)[:200]} on {hist[:5]}', case)
+                        break
+                    st['documents_loaded_and_compared'] += 1
+                    if got != want[i]:
+                        if got['roots'] != want[i]['roots']:
+                            what = f'roots saved {want[i]["roots"]} loaded {got["roots"]}'
+                        else:
+                            bad = [(nm, f, want[i]['objs'][nm][f], got['objs'].get(nm, {}).get(f)) for nm in want[i]['objs']
+                                   for f in want[i]['objs'][nm] if got['objs'].get(nm, {}).get(f) != want[i]['objs'][nm][f]]
+                            what = f'(object, feature, saved, loaded) {bad[:3]}'
+                        out.fail(dict(sig, stage='compare'), f'{label}: the loaded model differs: {what} on {hist[:5]}', case)
+                        break
+            finally:
+                for u in kept:
+                    u.close_stream()
+    out.coverage['placement_json'] = st
+
+
 def run(ctx, out):
     common.use_repo()
     thorough = ctx.tier == 'thorough'
@@ -257,6 +488,7 @@ def run(ctx, out):
     X.guarded(out, 'two files referring to each other', JS.two_file_scenarios, ctx, out)
     X.guarded(out, 'built-in data types', JS.datatype_scenarios, ctx, out)
     X.guarded(out, 'feature flags', JS.feature_flag_scenarios, ctx, out)
+    X.guarded(out, 'placement of the files and ways to save', placement_scenarios, ctx, out)
     budget -= min(time.time() - ts, 0.2 * budget)
     model = common.Model()
     mm = X.corr_mm()
@@ -278,7 +510,8 @@ def run(ctx, out):
     scen = out.coverage.get('save_history_json', {}).get('documents_loaded_and_compared', 0) \
         + out.coverage.get('subpackages_json', {}).get('documents', 0) \
         + 2 * out.coverage.get('two_files_json', {}).get('cases', 0) + out.coverage.get('datatypes_json', {}).get('documents', 0) \
-        + out.coverage.get('feature_flags_json', {}).get('documents', 0)
+        + out.coverage.get('feature_flags_json', {}).get('documents', 0) \
+        + out.coverage.get('placement_json', {}).get('documents_loaded_and_compared', 0)
     out.coverage.update({
         'evaluations': stats['cases'] + traces + scen,
         'scenario_documents': scen,
@@ -314,7 +547,7 @@ def run(ctx, out):
 
 SCENARIOS = {'save-history': JS.save_history_scenarios, 'subpackages': JS.subpackage_scenarios,
              'two-files': JS.two_file_scenarios, 'datatypes': JS.datatype_scenarios,
-             'feature-flags': JS.feature_flag_scenarios}
+             'feature-flags': JS.feature_flag_scenarios, 'placement': placement_scenarios}
 
 
 def replay(ctx, rep):
